@@ -68,7 +68,8 @@ type cfgT struct {
 	minBorrow sdk.Dec
 }
 
-var ltvPool = []string{"0.5", "0.8", "0.9", "0.75", "1.0", "0.333333333333333333", "0.666666666666666667"}
+// "0": a supply-only asset (deposits of it add nothing to the borrow limit; params validation allows it)
+var ltvPool = []string{"0.5", "0.8", "0.9", "0.75", "1.0", "0.333333333333333333", "0.666666666666666667", "0", "0.5", "0.8"}
 var rfPool = []string{"0", "0.05", "0.5", "1.0", "0.025"}
 var krPool = []string{"0", "0.05", "0.01", "1.0", "0.333333333333333333"}
 var pricePool = []string{"1.0", "2.0", "1.000000000000000001", "0.333333333333333333", "10.5", "1234.567890123456789012", "0.000001", "0.999999999999999999", "25000.01", "3.141592653589793238"}
